@@ -39,8 +39,7 @@ static int sba_hook_memalign(void **out, size_t align, size_t size) {
     g_palign_arg = align;
     g_psize_arg = size;
     __CPROVER_assert(g_pt[SBA_NP] == NULL, "at most one page is requested per step");
-    struct sba_page_model *pg = malloc(sizeof(struct sba_page_model)); /* arbitrary contents */
-    __CPROVER_assume(pg != NULL); /* ASSUMPTION: the OS page allocation succeeds (s_aligned_alloc's NULL result is not checked by the code) */
+    struct sba_page_model *pg = sba_model_new_page(); /* ASSUMPTION: the OS page allocation succeeds (s_aligned_alloc's NULL result is not checked by the code) */
     g_pt[SBA_NP] = pg;
     g_pt_alive[SBA_NP] = true;
     *out = pg;
@@ -117,6 +116,11 @@ void h_layout(void) {
 #define LIST_CAP_A (SBA_NP + 1) /* capacity (elements) of the pre-state lists: room for one push; growth is array_list's contract (C09) */
 #define LIST_CAP_F (SBA_NF + 1)
 
+/* parent allocator of the model: libc malloc/free, counted (DFCC havocs statics, so the harness fills the vtable itself) */
+size_t g_par_acquires, g_par_releases;
+static void *par_acquire(struct aws_allocator *a, size_t n) { (void)a; g_par_acquires++; void *p = malloc(n); __CPROVER_assume(p != NULL); return p; }
+static void par_release(struct aws_allocator *a, void *p) { (void)a; g_par_releases++; free(p); }
+static struct aws_allocator PARENT;
 static struct small_block_allocator S;
 #define PGB(i) ((uint8_t *)g_pt[(i)])
 
@@ -137,7 +141,10 @@ static size_t any_below(size_t n) {
 /* an arbitrary state of bin SBA_BIN that satisfies the invariant; every other bin is left arbitrary (never read) */
 static struct sba_bin *any_bin_state(void) {
     struct sba_bin *bin = &S.bins[SBA_BIN];
-    S.allocator = aws_default_allocator();
+    PARENT = (struct aws_allocator){.mem_acquire = par_acquire, .mem_release = par_release, .mem_realloc = NULL, .mem_calloc = NULL, .impl = NULL};
+    S.allocator = &PARENT;
+    g_par_acquires = g_par_releases = 0;
+    g_last_error = 0; g_raise_count = 0;
     S.lock = s_null_lock;
     S.unlock = s_null_unlock;
     bin->size = CLS;
@@ -146,8 +153,7 @@ static struct sba_bin *any_bin_state(void) {
         g_pt_alive[i] = false;
     }
     for (unsigned i = 0; i < SBA_NP; i++) {
-        g_pt[i] = malloc(sizeof(struct sba_page_model)); /* arbitrary contents */
-        __CPROVER_assume(g_pt[i] != NULL);
+        g_pt[i] = sba_model_new_page();
         g_pt_alive[i] = true;
     }
     /* exhausted pages: PG[0..na) in active_pages */
@@ -238,7 +244,7 @@ void h_free_step(void) {
     size_t nfree0 = bin->free_chunks.length;
     size_t pai = sba_pidx(a);
     bool a_in_work = pai == sba_work_idx(bin);
-    bool retire = g_pt[pai]->hdr.alloc_count == 1 && !a_in_work; /* last live chunk of an exhausted page */
+    bool retire = SBA_H(pai)->alloc_count == 1 && !a_in_work; /* last live chunk of an exhausted page */
     size_t free_in_pa = sba_free_in_page(bin, pai);
     size_t other = any_below(AWS_SBA_BIN_COUNT);
     __CPROVER_assume(other != SBA_BIN);
